@@ -1100,7 +1100,7 @@ impl Check for C08 {
 		CheckInfo {
 			id: "C08",
 			level: "exploration",
-			rule: "three streams. ops (1/2): seeded history over create / drop / finish / callback for sub-tracks, nested tracks, send tracks, clocks, modulators, listeners, main-track sounds and track sounds at capacities drawn from {0, 1, 2, 3, 5}, counts queried after every op; stale (1/4): one-slot arenas, an id (clock / modulator / send track / listener) is left dangling while a newcomer takes the slot, with seeded numbers of callbacks between the steps; sched (1/4): gameplay task (create / drop / count on a capacity-1..3 arena of tracks, clocks or sounds) against an audio task under seeded random schedules at the yield points in try_reserve, insert_with_key, remove_and_add and remove_unused; non-trivial = at least one resource created; distinct = hash of the occupancy sequence (ops), of the scenario parameters (stale), of the yield trace (sched)",
+			rule: "three streams. ops (1/2): seeded history over create / drop / finish / play-a-sound-whose-into_sound-fails / callback for sub-tracks, nested tracks, send tracks, clocks, modulators, listeners, main-track sounds and track sounds at capacities drawn from {0, 1, 2, 3, 5}, counts queried after every op; stale (1/4): one-slot arenas, an id (clock / modulator / send track / listener) is left dangling while a newcomer takes the slot, with seeded numbers of callbacks between the steps; sched (1/4): gameplay task (create / drop / count on a capacity-1..3 arena of tracks, clocks or sounds) against an audio task under seeded random schedules at the yield points in try_reserve, insert_with_key, remove_and_add and remove_unused; non-trivial = at least one resource created; distinct = hash of the occupancy sequence (ops), of the scenario parameters (stale), of the yield trace (sched)",
 			assumptions: vec![
 				"tracks are dropped together with the handles of their nested tracks (other orders and persist_until_sounds_finish belong to C12)".into(),
 				"sched stream: a removal is an interval (invoke..return of the audio-side step); creation must succeed if even the latest admissible removals leave a free slot and must fail if even the earliest admissible ones do not".into(),
